@@ -11,6 +11,7 @@ import MilaModel.Model.Lz
 import MilaModel.Spec.LzStream
 import MilaModel.Lemmas.LzCompress10
 import MilaModel.Lemmas.LzDecode
+import MilaModel.Props.C11
 
 namespace Mila.Props.C08
 open Mila Mila.Lz Mila.Spec.Lz
@@ -74,6 +75,17 @@ theorem lz10_header (x : BA) (hx : x.size < 2 ^ 24) :
   refine ⟨out, body, h1, ?_⟩
   rw [h2]
   simp [header, leBytes, Nat.div_div_eq_div_mul]
+
+/-- Interoperability of the two entry points: the LZ13 decompressor (struct and
+`CompressionFormat::LZ13`), which accepts bare LZ10/LZ11 streams, also gives back the input on
+every LZ10 image — a file written with one format setting and read with the other is not lost. -/
+theorem lz10_read_by_lz13 (x : BA) (hx : x.size < 2 ^ 24) :
+    ∃ out, compress10 x = .ok out ∧ decompress13 out.toList = .ok x ∧
+      Format.decompress .lz13 out.toList = .ok x := by
+  obtain ⟨out, toks, h1, h2, h3⟩ := lz10_conforms x hx
+  have h := C11.lz13_decompress_bare false toks out.toList h2
+  rw [h3] at h
+  exact ⟨out, h1, h.1, h.2⟩
 
 /-! Non-vacuity: the hypotheses are satisfiable by concrete inputs (the empty one included). -/
 example : ∃ out, compress10 #[1, 1, 1, 1, 1, 1, 2] = .ok out ∧
